@@ -184,12 +184,15 @@ def label_cases(ctx, n):
     srcs = [impgen.source_packet(r) for _ in range(n * 3)]
     texts = [t.split(" -> ")[0] for t in core.run_driver(["printsig\t%s\t%s" % (v, b.hex()) for v, b in srcs]) if t.endswith("-> exact")]
     texts = [t for t in texts if impgen.known_class(t) is None and "ts2+" not in t and "ack" not in t]
+    # version-agnostic forms of the same signatures (`*:...`): they keep the quirks of their own family
+    # (not those with IP options: no IPv6 packet has an options length other than 0)
+    texts += ["*" + t[1:] for t in texts if t.split(":")[2] == "0" and r.random() < 0.5]
     for _ in range(n):
         if len(texts) < 6:
             break
         labs = ["s:unix:A:1", "g:unix:B:", "s:win:A:1"]
         ver = r.choice(["4", "6"])
-        pool = [t for t in texts if t.startswith(ver + ":")] if r.random() < 0.9 else texts
+        pool = [t for t in texts if t.startswith((ver + ":", "*:"))] if r.random() < 0.9 else texts
         if len(pool) < 4:
             continue
         req = {l: r.sample(pool, r.randint(1, 2)) for l in r.sample(labs, 2)}
@@ -202,8 +205,13 @@ def label_cases(ctx, n):
         cands = [s for s in cands]
         usable = [s for s in cands if s.split(":")[0] in ("*", ver)]
         base = impgen.base_packet(r, ver, syn_ack)
+        # the database object has served other calls before, of either IP version
+        warm = []
+        for _w in range(r.choice([0, 0, 1, 2, 3])):
+            wv = r.choice(["4", "6"])
+            warm.append("%s.d.%s" % (wv, impgen.base_packet(r, wv, r.random() < 0.5 if r.random() < 0.3 else syn_ack).hex()))
         # extra flag bits on the base must not change the direction that is looked up
-        ops.append("imprun\tL:%s\t%s\t%s\td\t0\t1500\t-\t%d\t%s" % (hx(lab), ver, base.hex(), r.randrange(2**31), hx(db)))
+        ops.append("imprun\tL:%s\t%s\t%s\td\t0\t1500\t-\t%d\t%s\t%s" % (hx(lab), ver, base.hex(), r.randrange(2**31), hx(db), ",".join(warm)))
         meta.append((lab, cands, usable, ver, syn_ack))
     outs = core.run_impl(ops)
     ctx.evaluations += len(ops)
